@@ -301,13 +301,13 @@ PlaceA(p) ==
             LET f == kinds[p].dev - Cardinality(ex)
                 grp == GroupChoice(p, ex, f)
                 \* GetNodePreferableGpuForSharing.IsReleasing
-                releasing == ~Allocatable(A, p) \/ \E g \in ex : ~EnoughIdleOnGpu(A, p, g) IN
+                \* (findGpuForSharingOnNode: the i-th new group is allocated only if int(Idle.gpu) >= i)
+                releasing == ~Allocatable(A, p) \/ (\E g \in ex : ~EnoughIdleOnGpu(A, p, g)) \/ f > A.idle.gpu IN
             /\ f >= 0 /\ f <= WholeSlots(A) /\ seen + f <= Len(GroupSeq)
             /\ seen' = seen + f
             /\ IF releasing
                THEN Do("Pipeline", "Add", p, "Pipelined", grp) /\ log' = Append(log, Rec(p, "pipe", "A", "None", <<>>))
-               ELSE /\ "AllocFreshOnReleasing" \in Excl => f <= A.idle.gpu
-                    /\ Do("Allocate", "Add", p, "Allocated", grp) /\ log' = Append(log, Rec(p, "alloc", "A", "None", <<>>))
+               ELSE /\ Do("Allocate", "Add", p, "Allocated", grp) /\ log' = Append(log, Rec(p, "alloc", "A", "None", <<>>))
      ELSE /\ seen' = seen
           /\ IF Allocatable(A, p)
              THEN Do("Allocate", "Add", p, "Allocated", <<>>) /\ log' = Append(log, Rec(p, "alloc", "A", "None", <<>>))
